@@ -325,7 +325,7 @@ func init() {
 	Checks["C04"] = func(r *evid.Run) {
 		registerStandardExt()
 		c04stats = NewStats()
-		dl := deadline(r, 50*time.Second, 15*time.Minute)
+		dl := deadline(r, 120*time.Second, 15*time.Minute)
 		bound := 2
 		if thorough(r) {
 			bound = 3
